@@ -212,7 +212,9 @@ class Gen:
 
     def ymd(self):
         r = self.r
-        return str(r.randint(2021, 2026)), f"{r.randint(1, 12):02d}", f"{r.randint(1, 28):02d}"
+        # mostly recent years; now and then the far ends of the two-digit range (00, 68 | 69, 99: all of them mean 20yy)
+        y = r.randint(2021, 2026) if r.random() < 0.9 else r.choice([2000, 2001, 2068, 2069, 2070, 2099])
+        return str(y), f"{r.randint(1, 12):02d}", f"{r.randint(1, 28):02d}"
 
     def a_zid(self, three=None):
         y, m, d = self.ymd()
